@@ -189,3 +189,90 @@ LEVEL_NOTE = ('Trusted: Python re as the matcher, Hypothesis generation, the '
               'loop) are recognised by predicate and reported as '
               'KNOWN-FINDING; strings with NUL are kept out of pandas Series '
               'inputs because pandas itself conflates them.')
+
+
+# ----------------------------------------------------- coverage-guided tier
+
+def fuzz_campaign(prop, mod, tier, ctx, info, seed_value):
+    """
+    Thorough tier only: 16 atheris shards on tv.fuzz_rex (C03 and C13
+    oracles inside the target), empty corpus, pinned as far as libFuzzer
+    allows (-seed, -runs).  Violations recorded by the target are re-run
+    here through mod.run, so they go through the same bucket / minimise /
+    report path as the Hypothesis tier.
+    """
+    import json
+    import os
+    import subprocess
+    import sys
+    import time
+    if tier != 'thorough' or os.environ.get('VERIF_FUZZ') == '0':
+        return
+    try:
+        import atheris   # noqa: F401
+    except ImportError:
+        info['fuzz'] = {'skipped': 'atheris is not importable'}
+        return
+    shards = int(os.environ.get('VERIF_JOBS', '0') or 0) or min(
+        16, os.cpu_count() or 1)
+    runs = int(os.environ.get('VERIF_FUZZ_RUNS', '0') or 0) or 60000
+    outdir = os.path.join(ctx.scratch, 'fuzz')
+    os.makedirs(outdir, exist_ok=True)
+    t0 = time.time()
+    procs = []
+    for s in range(shards):
+        corpus = os.path.join(outdir, 'corpus%02d' % s)
+        os.makedirs(corpus, exist_ok=True)
+        procs.append(subprocess.Popen(
+            [sys.executable, '-m', 'tv.fuzz_rex', outdir, str(s),
+             '-runs=%d' % runs, '-seed=%d' % (seed_value * 100 + s + 1),
+             '-max_len=384', '-print_final_stats=0', corpus],
+            stdout=subprocess.DEVNULL, stderr=subprocess.DEVNULL,
+            cwd=os.path.dirname(os.path.dirname(os.path.dirname(
+                os.path.abspath(__file__))))))
+    for p in procs:
+        p.wait()
+    execs = nontrivial = 0
+    sample = None
+    for s in range(shards):
+        sp = os.path.join(outdir, 'stats-%d.json' % s)
+        if os.path.exists(sp):
+            with open(sp) as f:
+                st_ = json.load(f)
+            execs += st_['execs']
+            nontrivial += st_['distinct_nontrivial']
+            sample = sample or st_.get('sample')
+    seen = set()
+    for s in range(shards):
+        vp = os.path.join(outdir, 'viol-%d.jsonl' % s)
+        if not os.path.exists(vp):
+            continue
+        with open(vp) as f:
+            for line in f:
+                rec = json.loads(line)
+                if rec['property'] != prop:
+                    continue
+                key = (rec['clause'], rec['bucket'])
+                if key in seen and len(seen) > 50:
+                    continue
+                seen.add(key)
+                case = rec['case']
+                out = mod.run(case, ctx)
+                out.label('found-by:atheris')
+                yield case, out
+    info['fuzz'] = {
+        'engine': 'atheris (libFuzzer), target tv/fuzz_rex.py',
+        'shards': shards, 'runs_per_shard': runs, 'executions': execs,
+        'distinct_nontrivial_sum_over_shards': nontrivial,
+        'wall_s': round(time.time() - t0, 1),
+        'sample_decoded_case': sample,
+        'corpus': 'empty; structured decoder (FuzzedDataProvider)',
+        'instrumented': ['tdda.rexpy.rexpy'],
+    }
+
+
+def extra(tier, ctx, info, seed_value):
+    import sys
+    for x in fuzz_campaign('C03', sys.modules[__name__], tier, ctx, info,
+                           seed_value):
+        yield x
